@@ -1,5 +1,115 @@
-import MptModel.Impl.Config
-import MptModel.Spec.PathMap
+/-
+  C10 — the configuration store behaves as a path -> value map.
+
+  M = `Impl/Config.lean`: byte-level model of mpt_path_set/next/last/addchar/valid/add/del and the
+  tree functions node_query/node_assign/meta_set/config_global assign·query·remove on ordered trees
+  (`CNode`; the pointer operations behind them are the subject of C14).  S = `Spec/PathMap.lean`.
+
+  Proved: `path_split` (mpt_path_set + mpt_path_next visit exactly the separator-delimited components,
+  for every text and separator, incl. first elements longer than the 8 bit `first` field), and
+  `map_refinement` (for every history of assignments and removals with non-empty paths a query of the
+  tree returns what the map holds: get-after-set, independence of different paths, remove = remove the
+  prefix and nothing else).  Statement only (checked by the correspondence run): sub-tree views,
+  mpt_path_last, rebuilding with mpt_path_add/del, binary length mode, an assign character ≠ 0.
+-/
+import MptModel.Lemmas.ConfigMap
+import MptModel.Lemmas.ConfigPath
 namespace Mpt.C10
-theorem placeholder : True := trivial
+open Mpt Mpt.Config Mpt.PathMap
+
+/-! ### path_split -/
+
+/-- Splitting a path text with `mpt_path_set(path, text, -1)` (separator `sep ≠ 0`, assign character 0) and
+    consuming it with `mpt_path_next` until it is used up yields exactly the separator-delimited components
+    of the text — also when the first element is longer than 255 bytes (`first` cannot hold its length). -/
+theorem path_split (sep : Byte) (hs : sep ≠ 0) (text : List Byte) (h0 : (0 : Byte) ∉ text) :
+    elems (pathSet sep 0 text).1 (text.length + 2) = .ok (splitOn sep text) :=
+  elems_pathSet sep hs text h0
+
+example : elems (pathSet 46 0 [97, 46, 46, 98, 99]).1 7 = .ok [[97], [], [98, 99]] := by
+  simpa [splitOn] using path_split 46 (by decide) [97, 46, 46, 98, 99] (by decide)
+
+/-- the components of a text are never none, and a text without separator is its only component -/
+theorem split_basic (sep : Byte) (t : List Byte) :
+    splitOn sep t ≠ [] ∧ (sep ∉ t → splitOn sep t = [t]) :=
+  ⟨splitOn_ne_nil sep t, splitOn_no_sep sep t⟩
+
+/-- the full statement of the path clause: also with an assign character, for the last element
+    (`mpt_path_last` after any number of consumed elements) and for rebuilding/undoing with
+    `mpt_path_addchar`/`valid`/`add`/`del` in separator and binary mode -/
+def path_split_statement : Prop :=
+  (∀ (sep assign : Byte) (text : List Byte), sep ≠ 0 → sep ≠ assign → (0 : Byte) ∉ text →
+      elems (pathSet sep assign text).1 (text.length + 2) = .ok (splitPath sep assign text)) ∧
+  (∀ (sep : Byte) (text : List Byte) (p : Path) (done : List (List Byte)) (e : List Byte) (rest : List (List Byte)),
+      sep ≠ 0 → (0 : Byte) ∉ text → splitOn sep text = done ++ e :: rest →
+      -- `p` = the path after `done.length` calls of pathNext
+      ∃ q, pathLast p = .ok (q, (rest.getLast?.getD e).length)) ∧
+  (∀ (bin : Bool) (sep : Byte) (es : List (List Byte)), (∀ e ∈ es, sep ∉ e ∧ e.length ≤ 255) → es.head? ≠ some [] →
+      ∃ p, elems p (es.length + 2) = .ok es ∧ p.binary = bin)
+
+/-! ### map_refinement -/
+
+/-- get-after-set and independence on the tree: after `mpt_node_assign` the assigned path reads the new
+    value, every other path reads what it read before (no uniqueness assumption needed) -/
+theorem get_after_set (k : Key) (l l' : List CNode) (v : Value) (h : nodeAssign l k v = some l') :
+    valueAt l' k = some v ∧ ∀ k', k' ≠ k → valueAt l' k' = valueAt l k' := by
+  refine ⟨by simp [valueAt_assign k l l' v h k], fun k' hk => ?_⟩
+  rw [valueAt_assign k l l' v h k']
+  simp [hk]
+
+/-- remove = remove the prefix and nothing else (sibling names unique, as every reachable tree has them) -/
+theorem remove_prefix_only (k : Key) (l l' : List CNode) (hu : Uniq l) (h : removeExact l k = some l') :
+    (∀ k', k.isPrefixOf k' = true → valueAt l' k' = none) ∧
+    (∀ k', k.isPrefixOf k' = false → valueAt l' k' = valueAt l k') := by
+  refine ⟨fun k' hp => ?_, fun k' hp => ?_⟩
+  · rw [valueAt_remove k l l' hu h k']; simp [hp]
+  · rw [valueAt_remove k l l' hu h k']; simp [hp]
+
+/-- For all histories of assignments and removals (non-empty paths) starting from the empty configuration:
+    the tree keeps unique sibling names, and a query for any path returns exactly what the map
+    `set`/`removePrefix` holds. -/
+theorem map_refinement (ops : List Op) (hk : ∀ op ∈ ops, op.key ≠ []) :
+    Uniq (ops.foldl stepM []) ∧ ∀ k, k ≠ [] → valueAt (ops.foldl stepM []) k = PathMap.get (ops.foldl stepS []) k :=
+  agree_foldl ops [] [] (by simp [Uniq]) (by intro k _; simp [valueAt, findExact, locate, PathMap.get]; cases k <;> simp [findExact, locate]) hk
+
+example : valueAt ([Op.set [[97], [98]] [1], Op.set [[97]] [2], Op.del [[97], [98]]].foldl stepM []) [[97]] = some [2] := by
+  have := (map_refinement [Op.set [[97], [98]] [1], Op.set [[97]] [2], Op.del [[97], [98]]] (by simp [Op.key])).2 [[97]] (by simp)
+  rw [this]
+  decide
+
+/-- the functions of the global configuration object (no view base) are the tree functions:
+    assign = `mpt_node_assign`, query = exact lookup of a value, remove = unlink + destroy at the exact path -/
+theorem config_global_ops (l : List CNode) (k : Key) (hk : k ≠ []) (v : Value) :
+    (∀ l', configAssign l [] k v = .ok l' ↔ nodeAssign l k v = some l') ∧
+    (∀ x, configQuery l [] k = .ok x ↔ valueAt l k = some x) ∧
+    (∀ l' r, configRemove l [] k = .ok (l', r) → l' = (removeExact l k).getD l) := by
+  cases k with
+  | nil => exact absurd rfl hk
+  | cons e es =>
+    refine ⟨?_, ?_, ?_⟩
+    · intro l'
+      simp only [configAssign, ensure, List.nil_append]
+      cases nodeAssign l (e :: es) v <;> simp
+    · intro x
+      simp only [configQuery, List.nil_append, valueAt]
+      cases findExact l (e :: es) with
+      | none => simp
+      | some c =>
+        cases hv : c.value <;> simp [hv]
+    · intro l' r h
+      simp only [configRemove, List.nil_append] at h
+      by_cases hl : l.isEmpty
+      · simp [hl] at h
+      · simp only [hl, Bool.false_eq_true, ↓reduceIte, ne_eq, not_true_eq_false, false_and] at h
+        cases hr : removeExact l (e :: es) with
+        | none => simp [hr] at h; simp [h.1]
+        | some l2 => simp [hr] at h; simp [h.1]
+
+/-- the full statement of the map clause incl. sub-tree views: a view with base path `b` acts on the map at `b ++ k` -/
+def map_refinement_statement : Prop :=
+  ∀ (l : List CNode) (m : PMap) (b k : Key) (v : Value), Uniq l → Agree l m → b ++ k ≠ [] →
+    (∀ l', configAssign l b k v = .ok l' → Uniq l' ∧ Agree l' (PathMap.set m (b ++ k) v)) ∧
+    (∀ x, configQuery l b k = .ok x ↔ PathMap.get m (b ++ k) = some x) ∧
+    (∀ l' r, k ≠ [] → configRemove l b k = .ok (l', r) → Uniq l' ∧ Agree l' (removePrefix m (b ++ k)))
+
 end Mpt.C10
